@@ -118,6 +118,7 @@ type c32Setup struct {
 	dst       BeState
 	labels    []string
 	selection []string // extra args of copy
+	fullIdx   bool     // index.Full overridden: an index file after every pack
 }
 
 // c32Build creates the source and the initial destination state.
@@ -218,11 +219,69 @@ func c32Build(h *H) c32Setup {
 	default:
 		s.labels = append(s.labels, "select-all")
 	}
+	if h.Intn(4) != 0 {
+		s.fullIdx = true
+		s.labels = append(s.labels, "index-after-every-pack")
+	}
 	a16RemoveLocks(srcBe)
 	a16RemoveLocks(dstBe)
 	s.src = DumpBackend(srcBe)
 	s.dst = DumpBackend(dstBe)
 	return s
+}
+
+// c32SetFull makes every index "full" (an index file is written after each stored pack, the
+// stand-in for the intermediate indexes of a large copy) when on is set.
+func c32SetFull(on bool) func() {
+	if !on {
+		return func() {}
+	}
+	return c33SetFull(0)
+}
+
+// c32Resume runs copy again (no faults) on a crashed destination state and records what it did.
+func c32Resume(h *H, s c32Setup, srcBe *mem.MemoryBackend, d *mem.MemoryBackend, args []string, k, variant string) {
+	if variant == "repair-index" {
+		restore := c32SetFull(s.fullIdx)
+		ri := (&CLI{Be: d, Password: c32DstPw}).Run("repair", "index")
+		restore()
+		a16RemoveLocks(d)
+		if ri.Err != nil {
+			h.Rec("resume", k, variant, "repair-index-failed", "-", HexS(a16OneLine(ri.Stderr)))
+			return
+		}
+	}
+	dr := OpenRepoOn(d, c32DstPw)
+	h.Rec("rhas", append([]string{k, variant}, c32HandleToks(c32IndexedHandles(dr, d))...)...)
+	for _, sn := range a16Snapshots(dr) {
+		h.Rec("rs0", append([]string{k, variant}, c32SnapToks(sn)...)...)
+	}
+	before := map[string]bool{}
+	for _, p := range a16Packs(dr, d) {
+		before[p.ID.String()] = true
+	}
+	cc := &CLI2{Be: d, Be2: srcBe, Password: c32DstPw, Password2: c32SrcPw}
+	restore := c32SetFull(s.fullIdx)
+	rr := cc.Run(args...)
+	restore()
+	a16RemoveLocks(d)
+	a16RemoveLocks(srcBe)
+	dr = OpenRepoOn(d, c32DstPw)
+	var up []c34Handle
+	for _, p := range a16Packs(dr, d) {
+		if !before[p.ID.String()] {
+			for _, e := range p.Entries {
+				up = append(up, c34Handle{e.Typ, e.ID})
+			}
+		}
+	}
+	h.Rec("rup", append([]string{k, variant}, c32HandleToks(up)...)...)
+	for _, sn := range a16Snapshots(dr) {
+		h.Rec("rs1", append([]string{k, variant}, c32SnapToks(sn)...)...)
+	}
+	ck := (&CLI{Be: d, Password: c32DstPw}).Run("check", "--read-data")
+	a16RemoveLocks(d)
+	h.Rec("resume", k, variant, a16ErrKind(rr), a16ErrKind(ck), HexS(a16OneLine(fmt.Sprint(rr.Err)+"|"+ck.Stderr)))
 }
 
 func streamC32(h *H) {
@@ -277,7 +336,9 @@ func c32Case(h *H, s c32Setup) {
 	rec := NewRecBackend(dstBe)
 	cli := &CLI2{Be: rec, Be2: srcBe, Password: c32DstPw, Password2: c32SrcPw}
 	args := append([]string{"copy", "--from-repo", "mem2:r"}, s.selection...)
+	restoreFull := c32SetFull(s.fullIdx)
 	r := cli.Run(args...)
+	restoreFull()
 	h.Rec("res", a16ErrKind(r), HexS(a16OneLine(fmt.Sprint(r.Err)+"|"+r.Stderr)))
 	totalMut := rec.Mutations()
 	a16RemoveLocks(dstBe)
@@ -352,7 +413,9 @@ func c32Case(h *H, s c32Setup) {
 	if r.Err == nil {
 		rec2 := NewRecBackend(dstBe)
 		cli2 := &CLI2{Be: rec2, Be2: srcBe, Password: c32DstPw, Password2: c32SrcPw}
+		restoreFull = c32SetFull(s.fullIdx)
 		r2 := cli2.Run(args...)
+		restoreFull()
 		h.Rec("res2", a16ErrKind(r2), HexS(a16OneLine(fmt.Sprint(r2.Err)+"|"+r2.Stderr)))
 		for _, e := range rec2.Events {
 			if (e.Op == "save" || e.Op == "remove") && e.Type != "lock" {
@@ -366,16 +429,19 @@ func c32Case(h *H, s c32Setup) {
 		}
 	}
 
-	// crash prefixes from the same initial destination
+	// crash prefixes from the same initial destination; every crashed state is checked, then the
+	// copy is run again on it without faults (plain, and — when the crash left packs the index
+	// does not know — also after `repair index`), and the destination is checked again: the
+	// resumed copy must heal the destination whatever part of the first run reached it.
 	if r.Err == nil && totalMut > 0 {
 		var ks []int
-		if totalMut <= 8 || h.Thorough() {
+		if totalMut <= 12 || h.Thorough() {
 			for k := 0; k < totalMut; k++ {
 				ks = append(ks, k)
 			}
 		} else {
 			seen := map[int]bool{}
-			for len(ks) < 6 {
+			for len(ks) < 8 {
 				k := h.Intn(totalMut)
 				if !seen[k] {
 					seen[k] = true
@@ -390,12 +456,40 @@ func c32Case(h *H, s c32Setup) {
 			rc := NewRecBackend(d)
 			rc.CrashAfter = k
 			cc := &CLI2{Be: rc, Be2: srcBe, Password: c32DstPw, Password2: c32SrcPw}
+			restore := c32SetFull(s.fullIdx)
 			rr := cc.Run(args...)
+			restore()
 			a16RemoveLocks(d)
 			a16RemoveLocks(srcBe)
+			crashed := DumpBackend(d)
 			nsn := len(a16Snapshots(OpenRepoOn(d, c32DstPw)))
 			ck := (&CLI{Be: d, Password: c32DstPw}).Run("check", "--read-data")
+			a16RemoveLocks(d)
 			h.Rec("crash", Itoa(k), a16ErrKind(rr), a16ErrKind(ck), Itoa(nsn), HexS(a16OneLine(ck.Stderr)))
+			if rr.Err == nil {
+				continue // the run completed before the crash point
+			}
+			// packs the crashed destination's index does not know
+			dr := OpenRepoOn(d, c32DstPw)
+			indexedPacks := map[string]bool{}
+			for _, ix := range a16Indexes(dr, d) {
+				for _, p := range ix.Packs {
+					indexedPacks[p.Pack.String()] = true
+				}
+			}
+			orphans := false
+			for _, p := range a16Packs(dr, d) {
+				if !indexedPacks[p.ID.String()] {
+					orphans = true
+				}
+			}
+			variants := []string{"plain"}
+			if orphans {
+				variants = append(variants, "repair-index")
+			}
+			for _, v := range variants {
+				c32Resume(h, s, srcBe, LoadBackend(crashed), args, Itoa(k), v)
+			}
 		}
 	}
 	h.End()
